@@ -411,6 +411,8 @@ def finish(acc, tier):
 
 
 def replay(case, acc):
+    if "leak" in case:
+        return run_shard(("leak", 0), "quick", acc)
     if "name" in case:
         check_name(case["name"], acc, None, case)
     elif "middleware" in case:
